@@ -1201,14 +1201,14 @@ Example recheck_one_fetch :
   all_done s = true /\ fetched s = [t111] /\ map response (procs s) = [[(t111, Some (up0 t111))]; [(t111, Some (up0 t111))]].
 Proof. vm_compute. repeat split; reflexivity. Qed.
 
-(* finding: requester 0 looks (miss), requester 1 creates the tile, requester 0 looks again (hit) and answers without image *)
+(* before the repair of F22: requester 0 looks (miss), requester 1 creates the tile, requester 0 looks again (hit) and answers without image *)
 Definition race_schedule : list nat := [0; 1; 1; 1; 1; 1; 1; 1; 1; 1; 1; 0; 0; 0]%nat.
 Lemma race_unanswered :
   let s := run (grid_sys single_grid true false up0) (init [] [[t111]; [t111]]) race_schedule in
   all_done s = true /\ map response (procs s) = [[(t111, None)]; [(t111, Some (up0 t111))]].
 Proof. vm_compute. split; reflexivity. Qed.
 
-(* ... and with the proposed repair *)
+(* ... and the code (with the reload) *)
 Example race_repaired :
   let s := run (grid_sys single_grid true true up0) (init [] [[t111]; [t111]]) (race_schedule ++ [0]%nat) in
   all_done s = true /\ map response (procs s) = [[(t111, Some (up0 t111))]; [(t111, Some (up0 t111))]].
